@@ -37,7 +37,8 @@ Sigma0 == {A, DotDot, OneDot, <<>>, <<47>>, <<46,46,47,120>>, <<47,97,98,115>>, 
 SigmaT == {<<46,0,46>>, <<46,46,0>>, <<0,46,46>>, <<46,46,92,120>>, <<46,46,32>>, <<46,46,46>>}
 (* ... and components aiming at SIBLINGS that share a name prefix with the root ("root-evil", "root.bak") *)
 RootBak == RootN \o <<46,98,97,107>>
-SigmaS == {<<46,46,47>> \o RootN \o <<45,101,118,105,108,47,120>>, <<46,46,47>> \o RootBak \o <<47,110>>}
+Up3 == <<46,46,47,46,46,47,46,46,47>>      \* "../../../": deeper than a prefix glued to the first ".." can absorb
+SigmaS == {<<46,46,47>> \o RootN \o <<45,101,118,105,108,47,120>>, <<46,46,47>> \o RootBak \o <<47,110>>, Up3 \o <<110>>}
 Sigma == Sigma0 \cup SigmaT \cup SigmaS
 
 (* ---- C07 sandbox --------------------------------------------------------------------------------------------- *)
@@ -54,7 +55,9 @@ RootTree07 == {
   [p |-> <<A>>, n |-> DirN], [p |-> <<A, A>>, n |-> DirN], [p |-> <<A, X>>, n |-> FileN(11)], [p |-> <<A, A, X>>, n |-> FileN(12)],
   [p |-> <<X>>, n |-> FileN(13)], [p |-> <<<<97,98,115>>>>, n |-> FileN(14)],
   [p |-> <<Btxt>>, n |-> FileN(5)], [p |-> <<InfoPfx \o Btxt>>, n |-> InfoN(82, 3, TEXT)], [p |-> <<RsrcPfx \o Btxt>>, n |-> FileN(7)],
-  [p |-> <<<<112>> \o Incomplete>>, n |-> FileN(9)], [p |-> <<Ae>>, n |-> FileN(8)] }
+  [p |-> <<<<112>> \o Incomplete>>, n |-> FileN(9)], [p |-> <<Ae>>, n |-> FileN(8)],
+  (* the folder a carries a comment and a resource fork too, the file b.txt partial data as well *)
+  [p |-> <<InfoPfx \o A>>, n |-> InfoN(78, 3, Fldr)], [p |-> <<RsrcPfx \o A>>, n |-> FileN(15)], [p |-> <<Btxt \o Incomplete>>, n |-> FileN(16)] }
 Canaries07 == {SbxP \o <<<<111,117,116>>>>, SbxP \o <<<<111,117,116>>, <<115>>>>, SbxP \o <<RootN \o <<45,101>>>>,
                SbxP \o <<InfoPfx \o RootN>>, SbxP \o <<RsrcPfx \o RootN>>, SbxP \o <<RootN \o Incomplete>>,
                SbxP \o <<Config, <<115,46,121>>>>, <<L1, L2, L3, <<117,112>>>>,
@@ -241,6 +244,9 @@ Init11 == \E i \in DOMAIN InitTrees, ign \in {"default", "none", "custom"} :
 
 Dirs(t) == {q \in DOMAIN t : t[q].k = "dir" /\ ~ThroughLink(t, q) /\ \A i \in DOMAIN q : Encodable(q[i])}
 WirePath(d) == IF d = Root11 THEN Absent ELSE EncPath([i \in 1..(Len(d) - 1) |-> Enc(d[i + 1])])
+(* comment lengths up to the field limit (the stored information fork then exceeds 32 KiB and 64 KiB boundaries) *)
+Comments == IF Thin THEN {<<104,105>>, Run(40000)}
+            ELSE {<<>>, <<104>>, <<104,105>>, Run(255), Run(4096), Run(32600), Run(32700), Run(40000), Run(65000)}
 NewNames == IF Thin THEN {NC, NHi, NInc, NPdf} ELSE {A, Btxt, NC, NHid, NAt, NInc, NHi, NPdf}
 Steps11(t) ==
   UNION {
@@ -249,7 +255,7 @@ Steps11(t) ==
         listed == {L[q].n : q \in DOMAIN L}
     IN UNION {
          {Rq("rename", 0, P, n, nn, Absent, Absent) : nn \in NewNames}
-         \cup {Rq("setcomment", 0, P, n, Absent, Absent, <<104,105>>), Rq("delete", 0, P, n, Absent, Absent, Absent)}
+         \cup {Rq("setcomment", 0, P, n, Absent, Absent, cm) : cm \in Comments} \cup {Rq("delete", 0, P, n, Absent, Absent, Absent)}
          \cup {Rq(k, 0, P, n, Absent, WirePath(d2), Absent) : k \in {"move", "alias"}, d2 \in Dirs(t)}
          : n \in listed }
        \cup {Rq("newfolder", 0, P, n, Absent, Absent, Absent) : n \in NewNames \cup (IF Thin THEN {} ELSE listed)}
